@@ -27,8 +27,12 @@ type Valuation struct {
 	fn     *ssa.Function
 	known  map[string]bool        // canonical term -> truth
 	deps   map[string][]ssa.Value // canonical term -> SSA values it mentions (to forget it when they are redefined)
-	alias  map[ssa.Value]aterm    // phi -> term selected by this path
+	alias  map[ssa.Value]aterm    // phi -> term selected by this path; load of a tracked cell -> term of what the cell held
 	stored map[ssa.Value]bool     // cells (Alloc / FreeVar / Global) with a store in fn
+	// mem: what a tracked cell holds at this point of the path. A tracked cell is a local whose address is used for
+	// nothing but loads and stores in fn (a named result, a variable assigned on several paths): nothing else can write it.
+	mem     map[ssa.Value]aterm
+	tracked map[ssa.Value]bool
 }
 
 type aterm struct {
@@ -40,7 +44,10 @@ type aterm struct {
 
 func (v *Valuation) clone() *Valuation {
 	n := &Valuation{fn: v.fn, known: make(map[string]bool, len(v.known)+1), deps: make(map[string][]ssa.Value, len(v.deps)+1),
-		alias: make(map[ssa.Value]aterm, len(v.alias)+1), stored: v.stored}
+		alias: make(map[ssa.Value]aterm, len(v.alias)+1), stored: v.stored, tracked: v.tracked, mem: make(map[ssa.Value]aterm, len(v.mem)+1)}
+	for k, x := range v.mem {
+		n.mem[k] = x
+	}
 	for k, x := range v.known {
 		n.known[k] = x
 	}
@@ -60,6 +67,9 @@ func (v *Valuation) encode() string {
 	}
 	for k, x := range v.alias {
 		ks = append(ks, fmt.Sprintf("%s:=%s/%t", k.Name(), x.key, x.neg))
+	}
+	for k, x := range v.mem {
+		ks = append(ks, fmt.Sprintf("*%s:=%s/%t/%t", k.Name(), x.key, x.neg, x.nonnil))
 	}
 	sort.Strings(ks)
 	return strings.Join(ks, ";")
@@ -90,6 +100,9 @@ func (v *Valuation) term(x ssa.Value, depth int) aterm {
 			a.neg = !a.neg
 			return a
 		case token.MUL:
+			if a, ok := v.alias[y]; ok {
+				return a
+			}
 			if cell := cellOf(y.X); cell != nil && !v.stored[cell] {
 				return aterm{key: "cell:" + cell.Name()}
 			}
@@ -181,6 +194,14 @@ func (v *Valuation) forget(b *ssa.BasicBlock) {
 			}
 		}
 	}
+	for c, a := range v.mem {
+		for _, d := range a.deps {
+			if def(d) {
+				delete(v.mem, c)
+				break
+			}
+		}
+	}
 	for p, a := range v.alias {
 		if def(p) {
 			delete(v.alias, p)
@@ -193,6 +214,54 @@ func (v *Valuation) forget(b *ssa.BasicBlock) {
 			}
 		}
 	}
+}
+
+// effect applies what instruction in does to the tracked cells: a store binds the cell, a load is identified with what
+// the cell holds.
+func (v *Valuation) effect(in ssa.Instruction) {
+	switch x := in.(type) {
+	case *ssa.Store:
+		if v.tracked[x.Addr] {
+			v.mem[x.Addr] = v.term(x.Val, 0)
+		}
+	case *ssa.UnOp:
+		if x.Op == token.MUL && v.tracked[x.X] {
+			if t, ok := v.mem[x.X]; ok {
+				v.alias[x] = t
+			} else {
+				// from here on the cell is known to hold what this load saw
+				v.mem[x.X] = aterm{key: "v:" + x.Name(), deps: []ssa.Value{x}}
+			}
+		}
+	}
+}
+
+// trackedCells: the locals of fn whose address is only loaded from and stored to.
+func trackedCells(fn *ssa.Function) map[ssa.Value]bool {
+	res := map[ssa.Value]bool{}
+	Instrs(fn, func(in ssa.Instruction) {
+		al, ok := in.(*ssa.Alloc)
+		if !ok || al.Referrers() == nil {
+			return
+		}
+		for _, r := range *al.Referrers() {
+			switch y := r.(type) {
+			case *ssa.Store:
+				if y.Addr != ssa.Value(al) || y.Val == ssa.Value(al) {
+					return
+				}
+			case *ssa.UnOp:
+				if y.Op != token.MUL {
+					return
+				}
+			case *ssa.DebugRef:
+			default:
+				return
+			}
+		}
+		res[al] = true
+	})
+	return res
 }
 
 // PathQuery is the search.
@@ -238,7 +307,8 @@ func (q PathQuery) Find() (*Witness, error) {
 		trail []int
 		first int // index of the first instruction to look at (only for the start item)
 	}
-	start := item{blk: fn.Blocks[0], val: &Valuation{fn: fn, known: map[string]bool{}, deps: map[string][]ssa.Value{}, alias: map[ssa.Value]aterm{}, stored: stored}, trail: []int{0}}
+	start := item{blk: fn.Blocks[0], val: &Valuation{fn: fn, known: map[string]bool{}, deps: map[string][]ssa.Value{}, alias: map[ssa.Value]aterm{}, stored: stored,
+		mem: map[ssa.Value]aterm{}, tracked: trackedCells(fn)}, trail: []int{0}}
 	if q.From != nil {
 		start.blk = q.From.Block()
 		start.trail = []int{start.blk.Index}
@@ -255,6 +325,33 @@ func (q PathQuery) Find() (*Witness, error) {
 				}
 				start.val.known[t.key] = f.True != t.neg
 				start.val.deps[t.key] = t.deps
+			}
+			// a cell that was loaded for one of those tests and cannot have been written since still holds that value
+			for _, f := range Facts(start.blk) {
+				var loads []*ssa.UnOp
+				var walk func(x ssa.Value, d int)
+				walk = func(x ssa.Value, d int) {
+					if d > 4 {
+						return
+					}
+					switch y := x.(type) {
+					case *ssa.UnOp:
+						if y.Op == token.MUL && start.val.tracked[y.X] {
+							loads = append(loads, y)
+						} else {
+							walk(y.X, d+1)
+						}
+					case *ssa.BinOp:
+						walk(y.X, d+1)
+						walk(y.Y, d+1)
+					}
+				}
+				walk(f.Cond, 0)
+				for _, ld := range loads {
+					if _, has := start.val.mem[ld.X]; !has && noStoreBetween(ld.X, ld, q.From) {
+						start.val.mem[ld.X] = aterm{key: "v:" + ld.Name(), deps: []ssa.Value{ld}}
+					}
+				}
 			}
 		}
 	}
@@ -302,8 +399,14 @@ func (q PathQuery) Find() (*Witness, error) {
 			if i < it.first {
 				continue
 			}
+			if _, isStore := in.(*ssa.Store); !isStore {
+				val.effect(in)
+			}
 			if q.Target != nil && q.Target(in, val) {
 				return &Witness{Blocks: it.trail, End: in}, nil
+			}
+			if _, isStore := in.(*ssa.Store); isStore {
+				val.effect(in)
 			}
 			if q.Stop != nil && q.Stop(in) {
 				stopped = true
@@ -363,4 +466,92 @@ func (v *Valuation) KnownIsNil(x ssa.Value) (isNil, ok bool) {
 	sort.Strings(ks)
 	k, has := v.known["eq("+ks[0]+","+ks[1]+")"]
 	return k, has
+}
+
+// noStoreBetween: no store to cell can execute after instruction a and before instruction b, on any path from a to b.
+// a must dominate b.
+func noStoreBetween(cell ssa.Value, a, b ssa.Instruction) bool {
+	if !Dominates(a, b) {
+		return false
+	}
+	isStore := func(in ssa.Instruction) bool {
+		st, ok := in.(*ssa.Store)
+		return ok && st.Addr == cell
+	}
+	ab, bb := a.Block(), b.Block()
+	if ab == bb {
+		seen := false
+		for _, in := range ab.Instrs {
+			if in == a {
+				seen = true
+				continue
+			}
+			if in == b {
+				break
+			}
+			if seen && isStore(in) {
+				return false
+			}
+		}
+		// (a path that leaves the block and comes back passes a again, so what a loaded is loaded anew)
+		return true
+	}
+	after := false
+	for _, in := range ab.Instrs {
+		if in == a {
+			after = true
+			continue
+		}
+		if after && isStore(in) {
+			return false
+		}
+	}
+	for _, in := range bb.Instrs {
+		if in == b {
+			break
+		}
+		if isStore(in) {
+			return false
+		}
+	}
+	// blocks strictly between: reachable from a's block without passing it again, and reaching b's block
+	fwd := map[*ssa.BasicBlock]bool{}
+	var dfs func(x *ssa.BasicBlock)
+	dfs = func(x *ssa.BasicBlock) {
+		for _, s := range x.Succs {
+			if s == ab || fwd[s] {
+				continue
+			}
+			fwd[s] = true
+			dfs(s)
+		}
+	}
+	dfs(ab)
+	// (b's block is in fwd only... always; its instructions behind b count when it can be entered again without passing a)
+	again := map[*ssa.BasicBlock]bool{}
+	var dfs2 func(x *ssa.BasicBlock)
+	dfs2 = func(x *ssa.BasicBlock) {
+		for _, s := range x.Succs {
+			if s == ab || again[s] {
+				continue
+			}
+			again[s] = true
+			dfs2(s)
+		}
+	}
+	dfs2(bb)
+	for x := range fwd {
+		if x == bb && !again[bb] {
+			continue
+		}
+		if !reaches(x, bb) {
+			continue
+		}
+		for _, in := range x.Instrs {
+			if isStore(in) {
+				return false
+			}
+		}
+	}
+	return true
 }
